@@ -46,6 +46,8 @@ type OpObs struct {
 	Closed   []int
 	Canceled []int
 	Out      string // canonical output line
+	// ArgNote: the call changed the list of states it was given (a history kept by the caller)
+	ArgNote string
 }
 
 type Event struct {
@@ -591,10 +593,35 @@ func (r *Runner) Step(line string) (obs OpObs) {
 	r.mx.Lock()
 	r.events = nil
 	r.mx.Unlock()
-	var st am.S
+	var st, stOrig am.S
+	const spare = "\x00spare"
 	if len(toks) > 1 {
-		st = r.names(parseList(toks[1]))
+		// the list is a sub-slice of a longer one the caller keeps (a history, a package-level list):
+		// what lies behind it is the caller's too
+		base := r.names(parseList(toks[1]))
+		stOrig = base
+		st = make(am.S, len(base), len(base)+6)
+		copy(st, base)
+		for i := len(base); i < cap(st); i++ {
+			st[:cap(st)][i] = spare
+		}
 	}
+	defer func() {
+		if st == nil {
+			return
+		}
+		full := st[:cap(st)]
+		for i := range full {
+			want := spare
+			if i < len(stOrig) {
+				want = stOrig[i]
+			}
+			if full[i] != want {
+				obs.ArgNote = fmt.Sprintf("position %d of the caller's list became %q (the call was given %v, with the caller's own entries behind it)", i, full[i], stOrig)
+				return
+			}
+		}
+	}()
 	done := make(chan struct{})
 	var res am.Result
 	var crash string
